@@ -334,6 +334,48 @@ def run(ctx):
         prev_text = text
         if len(t.samples) < 2:
             t.samples.append({"text": text})
+    if not t.fail:
+        # sizes no small example reaches: a changelog of 700 blocks (about 100 kB; one block with 20 distributions, one with 600
+        # change lines) in every input form and through every way of writing it out
+        import io
+        from vf.changelog_gen import large_changelog, aligned_changelogs
+        for what_, text_, comps_ in aligned_changelogs():
+            try:
+                with warnings.catch_warnings():
+                    warnings.simplefilter("error")
+                    ok_ = str(real.Changelog(text_, strict=True)) == text_ and str(real.Changelog(text_.encode("utf-8"), strict=True)) == text_
+                    nb_ = len(list(real.Changelog(text_, strict=True)))
+            except Exception as e:
+                t.failed("strict parsing of a large well-formed changelog raised / warned: %r" % (e,), size=len(text_), layout=what_)
+                break
+            t.case(key=("large aligned", what_))
+            if not ok_ or nb_ != len(comps_):
+                t.failed("a large changelog with %s is not reproduced byte-for-byte" % what_, size=len(text_), blocks=nb_, expected=len(comps_))
+                break
+        text, comps = large_changelog()
+        forms_ = {"str": lambda: text, "bytes": lambda: text.encode("utf-8"), "lines": lambda: text.splitlines(True),
+                  "text file object": lambda: io.StringIO(text), "binary file object": lambda: io.BytesIO(text.encode("utf-8")),
+                  "bytes lines": lambda: [l.encode("utf-8") for l in text.splitlines(True)]}
+        for form, mk in ([] if t.fail else forms_.items()):
+            try:
+                with warnings.catch_warnings():
+                    warnings.simplefilter("error")
+                    cl = real.Changelog(mk(), strict=True)
+                out = str(cl)
+                fh = io.StringIO()
+                cl.write_to_open_file(fh)
+                blocks = list(cl)
+            except Exception as e:
+                t.failed("strict parsing of a large well-formed changelog raised / warned: %r" % (e,), size=len(text), form=form)
+                break
+            t.case(key=("large", form))
+            if out != text or fh.getvalue() != text or len(blocks) != len(comps) or \
+                    [(b.package, str(b.version), b.distributions, list(b.changes())) for b in blocks] != \
+                    [(c["package"], c["version"], c["distributions"], c["changes"]) for c in comps]:
+                first = next((i for i, (x, y) in enumerate(zip(out, text)) if x != y), min(len(out), len(text)))
+                t.failed("a large changelog is not reproduced byte-for-byte / its blocks are not the written ones", size=len(text), form=form,
+                         blocks_got=len(blocks), blocks_expected=len(comps), first_text_difference_at=first if out != text else None)
+                break
     t.done()
     ctx.level = "other"
     ctx.explanation = ("PROVED for all lines (SMT on the real pattern objects): every well-formed header matches topline and every topline "
